@@ -132,27 +132,64 @@ pub fn run(data: &[u8], ctx: &mut Ctx) -> Outcome {
 
     // --- history tail
     let steps = src.below(7);
-    let mut e = if src.bool() { ea } else { eb };
-    let mut m = tryp!(ctx, bridge::read_out(&e), "readout", "C01/readout");
-    let mut effective = 0;
+    let e = if src.bool() { ea } else { eb };
+    let m = tryp!(ctx, bridge::read_out(&e), "readout", "C01/readout");
+    let mut stats = HistStats::default();
+    match run_history(ctx, &mut src, e, m, steps, "C01", &mut stats) {
+        Outcome::Pass => {}
+        other => return other,
+    }
+    ctx.nontrivial = model.elements_count() >= 3 && model.elements().iter().any(|x| matches!(x, M::Node(..)));
+    Outcome::Pass
+}
+
+#[derive(Default)]
+pub struct HistStats {
+    pub effective: usize,
+    pub remove_last: bool,
+    pub add_duplicate: bool,
+    pub replace_subject_by_node: bool,
+    pub obscure_then_add: bool,
+    pub obscured_before: bool,
+    pub ops: Vec<String>,
+}
+
+/// Apply `steps` generated operations, checking after each one: library digests == harness
+/// recomputation at every position, strictly ascending unique assertion order, emitted bytes are
+/// strict dCBOR matching the envelope grammar and the harness encoding, documented effect,
+/// digest neutrality.
+pub fn run_history(ctx: &mut Ctx, src: &mut Src, e0: bc_envelope::Envelope, m0: M, steps: usize, id: &str, stats: &mut HistStats) -> Outcome {
+    let mut e = e0;
+    let mut m = m0;
     for _ in 0..steps {
-        let op = gen_op(&mut src, &m);
+        let op = gen_op(src, &m);
         ctx.fingerprint(op.name().as_bytes());
-        let key = format!("C01/step/{}", op.name());
+        let key = format!("{}/step/{}", id, op.name());
         let sub = format!("step:{}", op.name());
         let applied = nopanic!(ctx, ops::apply(&e, &m, &op), &sub, &key);
         match &applied.result {
             Ok(e2) => {
                 let lm = nopanic!(ctx, check_digests(e2), &sub, &key);
-                let lm = tryp!(ctx, lm.map_err(|s| format!("after {}: {}", op.show(), s)), &sub, &key);
+                let lm = tryp!(ctx, lm.map_err(|s| format!("after {} on {}: {}", op.show(), m.show(), s)), &sub, &key);
                 let r = nopanic!(ctx, check_bytes(e2, &lm), &sub, &key);
-                tryp!(ctx, r.map_err(|s| format!("after {}: {}", op.show(), s)), &sub, &key);
+                tryp!(ctx, r.map_err(|s| format!("after {} on {}: {}", op.show(), m.show(), s)), &sub, &key);
                 tryp!(ctx, ops::judge(&m, &applied, Some(&lm)).map_err(|s| format!("{} on {}: {}", op.show(), m.show(), s)), &sub, &key);
                 if op.digest_neutral() {
                     check!(ctx, lm.digest() == m.digest(), &sub, &key, "{} changed the root digest of {}", op.show(), m.show());
                 }
                 ctx.class(&format!("op:{}", op.name()));
-                effective += 1;
+                stats.effective += 1;
+                match &op {
+                    ops::Op::Remove(_) if m.assertions().len() == 1 => stats.remove_last = true,
+                    ops::Op::AddDup(_) | ops::Op::AddDupObscured(..) => stats.add_duplicate = true,
+                    ops::Op::ReplaceSubject(s) if matches!(s, Spec::Node(..)) => stats.replace_subject_by_node = true,
+                    ops::Op::Add(_) | ops::Op::AddType(_) | ops::Op::AddSalt if stats.obscured_before => stats.obscure_then_add = true,
+                    _ => {}
+                }
+                if lm.count_obscured() > 0 {
+                    stats.obscured_before = true;
+                }
+                stats.ops.push(op.show());
                 e = e2.clone();
                 m = lm;
             }
@@ -162,7 +199,5 @@ pub fn run(data: &[u8], ctx: &mut Ctx) -> Outcome {
             }
         }
     }
-    let _ = effective;
-    ctx.nontrivial = model.elements_count() >= 3 && model.elements().iter().any(|x| matches!(x, M::Node(..)));
     Outcome::Pass
 }
